@@ -90,7 +90,10 @@ def specRoute (cfg : Cfg) (evs : List Ev) (att : List String) (reads : List (Byt
   | none =>
     let got := (reads.map (·.1)).flatten
     let sawEOF := reads.any (fun x => x.2 == "eof")
-    if Spec.PA.streamOK sent got sawEOF then none
+    -- "not a hang or a panic": a Read of the serving stack that panics is never acceptable
+    if reads.any (fun x => x.2 == "panic") then
+      some ("panic", s!"a Read through the adapter panicked after delivering {Hex.encode got}")
+    else if Spec.PA.streamOK sent got sawEOF then none
     else some ("stream", s!"the serving stack read {Hex.encode got} (eof={sawEOF}) but the client sent {Hex.encode sent}")
 
 def parseRead (s : String) : Option (Bytes × String) :=
